@@ -51,11 +51,11 @@ RULE = (
     "or a refusal was required (key: parent, sub-screen, operation, operand states, result)."
 )
 BOUNDS = {
-    "quick": {"parents": ["A4", "B4", "C4", "D4", "E3", "F2", "G4", "H3"], "max_rows": 4, "concat_list_len": 3,
+    "quick": {"parents": ["A4", "B4", "C4", "D4", "E3", "F2", "G4", "H3", "A4p"], "max_rows": 4, "concat_list_len": 3,
               "sub_screens": "all 2^N row subsets of each parent",
               "sparse_probes": "screens of 300 / 771 / 1500 / 4200 / 2048 rows with 300 / 257 / 3 / 7 / 4 plates: every plates[] entry, and 9 compositions (complement of an interior block, prefix, suffix, stride, observed)",
               "held_views": "every view recipe (observed / unobserved / inverse / each plate / all 2^N subsets) x every non-empty union of unobserved plates filled in by set_observed afterwards"},
-    "thorough": {"parents": ["A4", "B4", "C4", "D4", "E3", "F2", "G4", "H3", "A5", "B5"], "max_rows": 5, "concat_list_len": 3,
+    "thorough": {"parents": ["A4", "B4", "C4", "D4", "E3", "F2", "G4", "H3", "A4p", "B4p", "D4p", "A5", "B5"], "max_rows": 5, "concat_list_len": 3,
                  "sub_screens": "all 2^N row subsets of each parent", "held_views": "as quick, on all six parents"},
 }
 ASSUMPTIONS = [
@@ -142,6 +142,24 @@ PARENTS = {
         ("s0", "q1", (("a", 2.0),), 0.5, False),
     ],
 }
+# the same rows on a parent that was built with SUPPLIED id mappings whose ids do not follow the listing order (ids reversed,
+# listing rotated): a view must report the parent's values, whatever the numbering
+PERMUTED = {"A4p": "A4", "B4p": "B4", "D4p": "D4"}
+for _k, _v in PERMUTED.items():
+    PARENTS[_k] = PARENTS[_v]
+
+
+def permuted_mappings(plain):
+    """Valid mappings for the rows of `plain` (a screen batchie numbered itself) with another numbering."""
+    sn, si = (np.asarray(a) for a in plain.sample_mapping)
+    tn, td, ti = (np.asarray(a) for a in plain.treatment_mapping)
+    si2 = (int(si.max()) - si) if si.size else si
+    top = int(ti.max()) if ti.size else -1
+    ti2 = np.where(ti == -1, -1, top - ti)
+    roll = lambda a: np.roll(a, 1)  # noqa: E731
+    return (sn, si2), (roll(tn), roll(td), roll(ti2))  # (samples: ids reversed against the listing; treatments: reversed and rotated)
+
+
 ATTRS = ("plate_ids", "sample_ids", "treatment_ids", "sample_names", "treatment_names", "treatment_doses",
          "observations", "observation_mask")
 ROW_ATTRS = ("sample_names", "treatment_names", "treatment_doses", "observations", "observation_mask", "plate_names")
@@ -217,6 +235,9 @@ class Ctx:
     def _make(self):
         rows = PARENTS[self.pname]
         top = make_screen(rows, control=CTL)
+        if self.pname in PERMUTED:
+            sm, tm = permuted_mappings(top)
+            top = make_screen(rows, control=CTL, sample_mapping=sm, treatment_mapping=tm)
         full = (1 << len(rows)) - 1
         if self.sub == full:
             return top
